@@ -967,3 +967,50 @@ package scipipe
 //@   modifies map[string]*OutPort, outPort.RemotePorts[*], InPort.ready, outPort.ready
 //@   ensures connected: outPort.ready && len(outPort.RemotePorts) > 0
 //@   ensures to-sink: outPort.RemotePorts[procName(p.inPorts["sink_in"].process) + "." + p.inPorts["sink_in"].name] == p.inPorts["sink_in"]
+
+//@ func (*Workflow).reconnectDeadEndConnections(wf, procs)
+//@   props C16
+//@   modifies map[string]*InPort, map[string]*OutPort, map[string]*InParamPort, map[string]*OutParamPort, InPort.ready, OutPort.ready, InParamPort.ready, OutParamPort.ready, wf.driver, procs[*]
+//@   ensures run-set-only-shrinks: forall k string :: k in procs ==> old(k in procs) && procs[k] == old(procs[k])
+//@   ensures only-driver-removed: forall k string :: old(k in procs) && !(k in procs) ==> old(procs[k]) == wf.driver
+//@   loop 0 invariant same: forall k string :: (k in procs <==> old(k in procs)) && procs[k] == old(procs[k])
+
+//@ func (*Workflow).runProcs(wf, procs)
+//@   props C04 C16
+//@   requires distinct: forall k1 string, k2 string :: k1 in procs && k2 in procs && k1 != k2 ==> procs[k1] != procs[k2]
+//@   modifies *
+//@   atgo scipipe.WorkflowProcess.Run ready-before-start[C16]: forall k string :: k in procs ==> sawReady[procs[k]]
+//@   atgo scipipe.WorkflowProcess.Run member-of-run-set[C16]: exists k string :: k in procs && procs[k] == $arg0
+//@   atgo scipipe.WorkflowProcess.Run not-the-driver[C04]: $arg0 != wf.driver
+//@   atcall scipipe.WorkflowProcess.Run ready-before-start[C16]: forall k string :: k in procs ==> sawReady[procs[k]]
+//@   atcall scipipe.WorkflowProcess.Run is-the-driver[C04]: $arg0 == wf.driver
+//@   atcall scipipe.WorkflowProcess.Run driver-not-spawned[C04]: spawned[wf.driver] == old(spawned[wf.driver])
+//@   atcall scipipe.WorkflowProcess.Run each-started-once[C04,C16]: forall k string :: k in procs && procs[k] != wf.driver ==> spawned[procs[k]] == old(spawned[procs[k]]) + 1
+//@   atcall scipipe.WorkflowProcess.Run only-run-set-started[C16]: forall p ref :: spawned[p] != old(spawned[p]) ==> exists k string :: k in procs && procs[k] == p
+//@   loop 0 invariant vis: forall k string :: $visited[k] ==> k in procs
+//@   loop 0 invariant started: forall k string :: $visited[k] && procs[k] != wf.driver ==> spawned[procs[k]] == old(spawned[procs[k]]) + 1
+//@   loop 0 invariant not-yet: forall p ref :: (p == wf.driver || !(exists k string :: $visited[k] && procs[k] == p)) ==> spawned[p] == old(spawned[p])
+
+//@ func (*Workflow).Proc(wf, procName) (res)
+//@   props C16
+//@   ensures returns-only-if-present: procName in wf.procs && res == wf.procs[procName]
+
+//@ func (*Workflow).Run(wf)
+//@   props C16
+//@   requires distinct: forall k1 string, k2 string :: k1 in wf.procs && k2 in wf.procs && k1 != k2 ==> wf.procs[k1] != wf.procs[k2]
+//@   modifies *
+
+//@ func (*Workflow).RunToProcs(wf, finalProcs)
+//@   props C16
+//@   modifies *
+//@   atcall (*Workflow).runProcs targets-included: forall j int :: 0 <= j && j < len(finalProcs) ==> listed($arg1, finalProcs[j])
+//@   atcall (*Workflow).runProcs upstream-included: forall j int, q ref :: 0 <= j && j < len(finalProcs) && directUp(q, finalProcs[j]) ==> listed($arg1, q)
+//@   atcall (*Workflow).runProcs closed-under-upstream: forall k string, q ref :: k in $arg1 && directUp(q, $arg1[k]) ==> listed($arg1, q)
+//@   atcall (*Workflow).runProcs nothing-else: forall k string :: k in $arg1 ==> (exists j int :: 0 <= j && j < len(finalProcs) && $arg1[k] == finalProcs[j]) || (exists k2 string :: k2 in $arg1 && directUp($arg1[k], $arg1[k2]))
+//@   loop 0 invariant range: 0 <= $i && $i <= len(finalProcs)
+//@   loop 0 invariant fresh: fresh(procsToRun) && procsToRun != nil
+//@   loop 0 invariant keyed: forall k string :: k in procsToRun ==> procsToRun[k] != nil && procName(procsToRun[k]) == k
+//@   loop 0 invariant targets: forall j int :: 0 <= j && j < $i ==> listed(procsToRun, finalProcs[j])
+//@   loop 0 invariant upstream: forall j int, q ref :: 0 <= j && j < $i && directUp(q, finalProcs[j]) ==> listed(procsToRun, q)
+//@   loop 0 invariant closed: forall k string, q ref :: k in procsToRun && directUp(q, procsToRun[k]) ==> listed(procsToRun, q)
+//@   loop 0 invariant nothing-else: forall k string :: k in procsToRun ==> (exists j int :: 0 <= j && j < $i && procsToRun[k] == finalProcs[j]) || (exists k2 string :: k2 in procsToRun && directUp(procsToRun[k], procsToRun[k2]))
